@@ -47,8 +47,12 @@ FixCons(p) ==
                                   [op |-> "BOOL", val |-> R.fixed[i].val]>>]]
 FixMV == [i \in DOMAIN R.bits |-> R.bits[i].var] \o [i \in DOMAIN R.fixed |-> R.fixed[i].var]
 
-SatPattern(mv, p) ==
-    LET q == [vars |-> R.prog.vars, cons |-> R.prog.cons \o FixCons(p)]
+(* a record may list its patterns explicitly (plist: pattern numbers; expects / masks are then indexed by the position *)
+(* in that list): used where the pattern space is too large to enumerate (frames from 2x3 on)                       *)
+Pat(k) == IF "plist" \in DOMAIN R THEN R.plist[k + 1] ELSE k
+SatPattern(mv, k) ==
+    LET p == Pat(k)
+        q == [vars |-> R.prog.vars, cons |-> R.prog.cons \o FixCons(p)]
         mv2 == mv \o FixMV
     IN  GroundOK(q, mv2) /\ SatFrom(q, mv2, 1, <<>>)
 
@@ -56,8 +60,9 @@ NP == Len(R.expects)
 (* a record judges the patterns p0 .. p1 (a long pattern space is split over several records) *)
 PRange == R.p0 .. R.p1
 
-ModelsPattern(mv, p) ==
-    LET q == [vars |-> R.prog.vars, cons |-> R.prog.cons \o FixCons(p)]
+ModelsPattern(mv, k) ==
+    LET p == Pat(k)
+        q == [vars |-> R.prog.vars, cons |-> R.prog.cons \o FixCons(p)]
         mv2 == mv \o FixMV
     IN  IF GroundOK(q, mv2) THEN ModelsFrom(q, mv2, 1, <<>>) ELSE {}
 
